@@ -23,7 +23,11 @@ RULE = ("Stateful generation of client histories (4..30 messages) for the real `
         "the process does not crash and exits after `exit`; stdout is a well-framed JSON-RPC stream; every request id "
         "is answered exactly once and no notification is; no response carries an unknown id. Diagnostics oracle: the "
         "last diagnostics published for each still-open document equal (message, severity, line) what `garden check "
-        "--json` reports for the same text in a file of the same name. Non-trivial = the history contains a request "
+        "--json` reports for the same text in a file of the same name. Second population (`imports`): a document whose "
+        "URI lies in a scratch directory next to one or two sibling files that exist on disk (good modules, parse "
+        "errors behind comment lines of 0..40 ASCII / 2- / 3- / 4-byte characters, a type error, non-ASCII identifiers, "
+        "empty), imported with or without `as`, opened, changed and queried; same oracles, `garden check` run in that "
+        "directory. Non-trivial = the history contains a request "
         "at an out-of-range or mid-character position, a request on a closed / unknown document, or a malformed "
         "message; distinct = distinct history.")
 ASSUMPTIONS = ["frames themselves (Content-Length headers) are always correct: a wrong length desynchronises any "
@@ -232,6 +236,75 @@ def gen(r):
     return {"msgs": msgs, "odd": bool(flags), "open": docs}
 
 
+ROOT = "@ROOT@"
+
+
+def gen_imports(r):
+    """a document that imports sibling files which exist on disk (good, with a parse error behind comment lines of
+    varying byte length, with a type error, non-ASCII), opened and queried; the URI carries a placeholder that
+    check() replaces with the scratch directory the siblings are written to"""
+    def pad():
+        ch = r.choice(["x", "é", "☃", "😀"])
+        return "".join("// " + ch * r.int(0, 40) + "\n" for _ in range(r.int(0, 2)))
+
+    def sibling():
+        k = r.int(0, 5)
+        if k == 0:
+            return pad() + "public fun helper(x: Int): Int { x + 1 }\n"
+        if k <= 2:
+            return pad() + r.choice(["fun f() { 1 + }\n", "public fun helper(x: Int): Int { x + }\n", "fun (\n",
+                                     "public fun helper(x: Int): Int { \"é☃\" + }\n"]) + pad()
+        if k == 3:
+            return pad() + "public fun helper(x: Int): Int { nope }\n"
+        if k == 4:
+            return pad() + "public fun helper(x: Int): Int { let é = x\n é + 1 }\nfun priv() {}\n"
+        return ""
+
+    files = {"sib_a.gdn": sibling()}
+    if r.bool():
+        files["sib_b.gdn"] = sibling()
+
+    def doc():
+        t = ""
+        for name in sorted(files):
+            if r.int(0, 4):
+                t += f'import "./{name}"' + (f" as m{name[4]}" if r.int(0, 2) == 0 else "") + "\n"
+        t += pad()
+        t += r.choice(["", "helper(1)\n", "let s = \"é☃😀\"\nhelper(2)\n", "nope2\n", "fun g() { helper(3) }\n",
+                       "ma::helper(4)\n", "fun (\n"])
+        return t
+
+    flags = set()
+    uri = f"file:///{ROOT}/main.gdn"
+    msgs = [{"kind": "req", "msg": {"jsonrpc": "2.0", "id": 1, "method": "initialize",
+                                    "params": {"capabilities": {}, "rootUri": None}}},
+            {"kind": "note", "msg": {"jsonrpc": "2.0", "method": "initialized", "params": {}}}]
+    text = doc()
+    msgs.append({"kind": "note", "msg": {"jsonrpc": "2.0", "method": "textDocument/didOpen", "params": {
+        "textDocument": {"uri": uri, "languageId": "garden", "version": 1, "text": text}}}})
+    nid = 2
+    for _ in range(r.int(1, 6)):
+        k = r.int(0, 9)
+        if k <= 5:
+            params = {"textDocument": {"uri": uri}, "position": gen_position(r, text, flags)}
+            m = r.choice(METHODS_POS)
+            if m == "textDocument/rename":
+                params["newName"] = "renamed_zz"
+            msgs.append({"kind": "req", "msg": {"jsonrpc": "2.0", "id": nid, "method": m, "params": params}})
+            nid += 1
+        elif k <= 7:
+            msgs.append({"kind": "req", "msg": {"jsonrpc": "2.0", "id": nid, "method": r.choice(METHODS_DOC),
+                                                "params": {"textDocument": {"uri": uri}}}})
+            nid += 1
+        else:
+            text = doc()
+            msgs.append({"kind": "note", "msg": {"jsonrpc": "2.0", "method": "textDocument/didChange", "params": {
+                "textDocument": {"uri": uri, "version": nid}, "contentChanges": [{"text": text}]}}})
+    msgs.append({"kind": "req", "msg": {"jsonrpc": "2.0", "id": nid, "method": "shutdown"}})
+    msgs.append({"kind": "note", "msg": {"jsonrpc": "2.0", "method": "exit"}})
+    return {"msgs": msgs, "odd": True, "open": {uri: text}, "files": files}
+
+
 def frame(body: bytes) -> bytes:
     return b"Content-Length: %d\r\n\r\n" % len(body) + body
 
@@ -288,17 +361,27 @@ def describe(case, upto=None):
 
 
 def check(case, ctx) -> Res:
+    d = ctx.scratch.dir()
+    root = d if case.get("files") is not None else None
     payload = b""
     for m in case["msgs"]:
         body = m["body"].encode("utf-8") if m["kind"] == "raw" else json.dumps(m["msg"], ensure_ascii=False).encode("utf-8")
+        if root:
+            body = body.replace(ROOT.encode(), root.strip("/").encode())
         payload += frame(body)
-    d = ctx.scratch.dir()
+    if case.get("files") is not None:
+        # documents that import sibling files: the siblings exist on disk and the URI points into their directory
+        for name, ftext in case["files"].items():
+            with open(os.path.join(d, name), "w", encoding="utf-8", newline="") as f:
+                f.write(ftext)
     rc, out, err, timed_out = run_lsp(payload, d)
     if timed_out:
         # 40 s is generous for ~30 messages, but a loaded machine can exceed it: decide with a budget load cannot explain
-        rc, out, err, timed_out = run_lsp(payload, ctx.scratch.dir(), timeout=240.0)
+        rc, out, err, timed_out = run_lsp(payload, d if root else ctx.scratch.dir(), timeout=240.0)
     cls = ("odd" if case["odd"] else "plain",)
     hist = describe(case)
+    if root:
+        hist += "".join(f"\n--- file {n} (next to the document)\n{t}" for n, t in sorted(case["files"].items()))
     replies, leftover = parse_frames(out)
     sent_ids = [m["msg"]["id"] for m in case["msgs"] if m["kind"] == "req"]
     answered = [x.get("id") for x in replies if isinstance(x, dict) and "id" in x and "method" not in x]
@@ -345,10 +428,12 @@ def check(case, ctx) -> Res:
             last_diag[x["params"]["uri"]] = x["params"]["diagnostics"]
     compared = 0
     for uri, text in case["open"].items():
+        if root:
+            uri = uri.replace(ROOT, root.strip("/"))
         if uri not in last_diag:
             return fail("no diagnostics published for an open document", f"{uri}\n--- history\n{hist}", classes=cls)
         name = uri.rsplit("/", 1)[1]
-        sub = ctx.scratch.dir()
+        sub = root or ctx.scratch.dir()
         path = os.path.join(sub, name)
         with open(path, "w", encoding="utf-8", newline="") as f:
             f.write(text)
@@ -382,4 +467,5 @@ def show(case):
     return describe(case, 12)[:1500]
 
 
-SUBS = [Sub("histories", check, gen=gen, cases={"quick": 500, "thorough": 20000}, show=show)]
+SUBS = [Sub("histories", check, gen=gen, cases={"quick": 500, "thorough": 20000}, show=show),
+        Sub("imports", check, gen=gen_imports, cases={"quick": 200, "thorough": 8000}, show=show)]
